@@ -210,6 +210,8 @@ def run(ctx):
     chain(ctx)
     from .. import system
     system.run(ctx, 'C04')
+    # label-picture histories: only commands that write or replace .p8.png files (incl. the user's cp), deeper
+    system.run(ctx, 'C04', nseq=(40 if ctx.quick else 400), depth=7, mode='png')
 
 
 def chain(ctx):
